@@ -160,7 +160,22 @@ VALUES_R1 = {
     "C17": [("MC_Utf8.tla", "MC_Utf8.cfg")],
 }
 
+def run_floats(pid, tier, seed):
+    vh = vlib.build_harness()
+    r1 = [vlib.model_check("MC_Floats.tla", "MC_Floats.cfg")]
+    g = vlib.run_gen(vh, "floats", tier, seed)
+    res = {"r1": r1, "gens": [g]}
+    if "hang" in g:
+        res["hang"] = g["hang"]
+        return res
+    bads, consumed, notes = vlib.validate("TraceFloats.tla", "TraceFloats.cfg", g["files"], xmx="3g")
+    res.update(bads=bads, consumed=consumed, notes=notes)
+    res["cov_conversion_paths"] = g["stats"].get("extra", {})
+    return res
+
+
 FAMILIES = {
+    "floats": {"run": run_floats},
     "values": {"run": run_values},
     "parse": {"run": run_parse},
     "handlers": {"run": run_handlers},
@@ -284,6 +299,21 @@ CHECKS.update({
             "level_text": "Utf8Sanitize is defined from the Unicode well-formedness table and model-checked for idempotence and identity on "
                           "valid input over all boundary-byte sequences <= 4; recorded outputs of the helpers are compared byte for byte.",
             "level_note": MC_NOTE + "; all 3-byte sequences are covered through boundary bytes, not literally; the slice/map helpers are checked on C03's trees"},
+})
+
+CHECKS.update({
+    "C04": {"family": "floats", "level": "exploration",
+            "rule": "literals: exact halfway points between adjacent float64s (random, near powers of two, subnormal, near max) and their "
+                    "neighbours (last digit +-1, appended digits) in several spellings; overflow/underflow thresholds; mantissa lengths 1..1100 x "
+                    "exponent windows; every row of the 696-row power-of-ten table with short, 19-digit and truncated mantissas plus hook-guided "
+                    "search for the wide-multiplication branch; >800-digit mantissas; random literals; each followed by a non-continuation byte; "
+                    "through ReadFloat64, DecodeFloat64, ReadValue and strconv.ParseFloat; distinct = distinct input",
+            "technique": "TLA+ exact-arithmetic rounding relation (limb bignums; R1 on a scaled-down format) evaluated by TLC on recorded conversions (R3); path hook for coverage",
+            "level_text": "A sampled infinite domain with an exact oracle: 'nearest, ties to even, sign of zero, overflow threshold, end offset' is a "
+                          "TLA+ relation over unbounded naturals which TLC evaluates for every recorded result (and for strconv's). The relation's "
+                          "algebra is model-checked exhaustively on a 4-bit/3-bit format. No exhaustiveness is claimed for binary64.",
+            "level_note": "TLC is used as an exact calculator here, not as a state-space explorer; a one-bit change deep in a table row may be "
+                          "visible only on inputs nobody can enumerate; conversion-path counts (hook H1) are reported in the evidence"},
 })
 
 NOT_APPLICABLE = {}
